@@ -1260,7 +1260,9 @@ func funcRefName(fn *ssa.Function, context ssa.Instruction) string {
 		}
 		return "<lit" + strings.TrimPrefix(fn.Name(), r.Name()) + ">"
 	}
-	return fn.Name()
+	// Any other function is identified by its package (or receiver type) and name:
+	// the bare name would make utf8.RuneLen and utf16.RuneLen the same callee.
+	return fn.RelString(nil)
 }
 
 func packageQualifier(p *types.Package) string {
